@@ -29,21 +29,28 @@ MsgEq(m, o) == /\ m.sl = o.sl /\ m.body = o.body /\ m.end = o.end
 MsgsEq(ms, os) == Len(ms) = Len(os) /\ \A i \in 1..Len(ms) : MsgEq(ms[i], os[i])
 
 (* what the recorded application may have seen, given the specification's state *)
+OutOk(s, o, refused) ==
+    IF refused THEN LET base == SelectSeq(s.out, LAMBDA c : c # 400) IN o.out \in {base, Append(base, 400)}   \* 400 or just close
+    ELSE o.out = s.out
+(* a gzip body in flight (or refused for its decoded size): a prefix of the decoded content, within the limit *)
+FluxMsgs(s, ms, o, end) ==
+    LET n == Len(ms) IN
+    /\ s.gz /\ n > 0 /\ Len(o.msgs) = n /\ MsgsEq(SubSeq(ms, 1, n - 1), SubSeq(o.msgs, 1, n - 1))
+    /\ ms[n].sl = o.msgs[n].sl /\ SameFields(ms[n].hs, o.msgs[n].hs) /\ o.msgs[n].end = end
+    /\ IsPrefix(o.msgs[n].body, GzDec(cfg, s)) /\ Len(o.msgs[n].body) <= s.maxb
 ServerBind(s, o) ==
     LET ms == Msgs(s.ev)
         n == Len(ms) IN
-    /\ \/ MsgsEq(ms, o.msgs)
-       \/ (* the headers of a message refused for its framing / size need not have reached the application *)
-          (n > 0 /\ ms[n].opt /\ MsgsEq(SubSeq(ms, 1, n - 1), o.msgs))
-       \/ (* a gzip body in flight: a prefix of the decoded content *)
-          (s.gz /\ n > 0 /\ Len(o.msgs) = n /\ MsgsEq(SubSeq(ms, 1, n - 1), SubSeq(o.msgs, 1, n - 1))
-                /\ ms[n].sl = o.msgs[n].sl /\ SameFields(ms[n].hs, o.msgs[n].hs)
-                /\ IsPrefix(o.msgs[n].body, GzDec(cfg, s)) /\ Len(o.msgs[n].body) <= s.maxb)
-    /\ IF s.rej # "none"
-       THEN LET base == SelectSeq(s.out, LAMBDA c : c # 400) IN o.out \in {base, Append(base, 400)}   \* 400 or just close
-       ELSE o.out = s.out
-    /\ o.closed = s.closed
     /\ o.logs = <<>> /\ o.errors = <<>>
+    /\ \/ /\ \/ MsgsEq(ms, o.msgs)
+             \/ (* the headers of a message refused for its framing / size need not have reached the application *)
+                (n > 0 /\ ms[n].opt /\ MsgsEq(SubSeq(ms, 1, n - 1), o.msgs))
+             \/ FluxMsgs(s, ms, o, ms[n].end)
+          /\ OutOk(s, o, s.rej # "none")
+          /\ o.closed = s.closed
+       \/ (* a gzip body that will exceed the limit may be refused as soon as the decoder notices *)
+          /\ s.gz /\ ~s.closed /\ Len(GzDec(cfg, s)) > s.maxb
+          /\ FluxMsgs(s, ms, o, "C") /\ o.closed /\ OutOk(s, o, TRUE)
 
 ClientResult(s) ==
     LET ms == Msgs(s.ev) IN
